@@ -219,6 +219,10 @@ def view(context, request):
                 request.add_response_callback(_make_resp_cb(VIEW))
             if r[1] & 2:
                 request.add_finished_callback(_make_fin_cb(VIEW))
+    hook = request.environ.get('c13.hook')
+    if hook is not None and level == 0:
+        hook()                          # interleaving cases: another thread serves a request meanwhile
+        _log(request, VIEW, aux=2)      # probe: still this request's frame, same depth
     sub = scn.get('sub')
     if sub:
         sr = make_request(sub['scn'], level + 1, type(request))
@@ -266,7 +270,8 @@ def make_request(scn, level, cls=None):
 
 def build_app(mask):
     """mask: bit 0 exception view for Exception, bit 1 exception view for HTTPException,
-    bit 2 the default exceptionresponse view stays enabled"""
+    bit 2 the default exceptionresponse view stays enabled, bit 3 the event subscribers are registered (and
+    committed) only AFTER make_wsgi_app() built the router from a registry without any subscriber"""
     from pyramid.config import Configurator
     from pyramid.httpexceptions import HTTPException
     from pyramid.events import NewRequest, BeforeTraversal, ContextFound, NewResponse
@@ -280,27 +285,34 @@ def build_app(mask):
     config.add_traverser(Traverser, Root)
     config.add_renderer('c13r', renderer_factory)
     config.add_view(view, context=Root, renderer='c13r', permission='p', c13v=True)
-    config.add_subscriber(_subscriber(NEWREQ), NewRequest)
-    config.add_subscriber(_subscriber(BEFORE_TRAV), BeforeTraversal)
-    config.add_subscriber(_subscriber(CTX_FOUND), ContextFound)
-    config.add_subscriber(_subscriber(NEWRESP), NewResponse)
+    def subscribe():
+        config.add_subscriber(_subscriber(NEWREQ), NewRequest)
+        config.add_subscriber(_subscriber(BEFORE_TRAV), BeforeTraversal)
+        config.add_subscriber(_subscriber(CTX_FOUND), ContextFound)
+        config.add_subscriber(_subscriber(NEWRESP), NewResponse)
+    if not mask & 8:
+        subscribe()
     config.add_tween('harness.c13.app.over_tween_factory', over=EXCVIEW_TWEEN)
     config.add_tween('harness.c13.app.under_tween_factory', under=EXCVIEW_TWEEN)
     if mask & 1:
         config.add_exception_view(excview, context=Exception)
     if mask & 2:
         config.add_exception_view(excview_http, context=HTTPException)
-    return config.make_wsgi_app()
+    app = config.make_wsgi_app()
+    if mask & 8:
+        subscribe()
+        config.commit()
+    return app
 
 
 def get_app(mask):
-    k = int(mask) & 7
+    k = int(mask) & 15
     if k not in _APPS:
         _APPS[k] = build_app(k)
     return _APPS[k]
 
 
-def run_request(case):
+def run_request(case, hook=None):
     """-> [outcome, final depth (relative), log]"""
     from pyramid.threadlocal import manager
     app = get_app(case['excview'])
@@ -308,6 +320,8 @@ def run_request(case):
     _T.log = []
     _T.base = base
     req = make_request(case['scn'], 0)
+    if hook is not None:
+        req.environ['c13.hook'] = hook
     status = []
     try:
         try:
